@@ -34,7 +34,8 @@ RULE = ("each run = one table (2-5 fields, 0-12 records, shared enum field type,
         "constructor, and the round-trip probe. Non-trivial iff a probe ran on a table whose ranged widths were already "
         "negotiated, or while a line task was in flight; distinct = digest of the trace.")
 
-FIELDS = ["id", "name", "status", "level", "flag"]
+FIELDS = ["id", "name", "status", "level", "flag", "speed"]
+UNIT_MODIFIERS = ["km/h", "m/s", "raw", "kn"]      # the format modifiers of the application's own field type of "speed"
 ODD_FIELDS = ["my field", "Ünï", "x2", "_u", "a.b",
               # names that Unicode normalisation would change (micro sign, ohm sign, superscript, combining accent,
               # full-width letters): a name is whatever the caller wrote
@@ -64,6 +65,9 @@ def gen_fmt(rng, fields, has_enum, allow_hidden=True):
             mod = None
             if f == "status" and has_enum and rng.random() < 0.7:
                 mod = rng.choice(["val", "name", "full"])
+                c += "/" + mod
+            elif f == "speed" and rng.random() < 0.6:
+                mod = rng.choice(UNIT_MODIFIERS)        # free-form unit texts, some with a '/' of their own
                 c += "/" + mod
             if rng.random() < 0.25:
                 c += "!"
@@ -154,6 +158,8 @@ def generate(rng, tier):
                 rec.append(rng.choice([7, 10, 17, 3.5, -2, None, 123456789, "7", "None", "3.5", 7.0]))
             elif f == "flag":
                 rec.append(rng.choice([True, False, None, True, "True", "None", 1]))
+            elif f == "speed":
+                rec.append(rng.choice([0, 5, 12.5, 88, 130, None, 299792]))
             else:
                 rec.append(rng.choice(NAMES_S))
         recs.append(rec)
@@ -242,6 +248,10 @@ def generate(rng, tier):
             op = {"op": "set_fmt", "which": which}
             if which == "new":
                 op["fmt"] = gen_fmt(rng, fields, has_enum)
+                if "speed" in fields and rng.random() < 0.25:
+                    # a plain, certainly valid description with one of the application's unit modifiers
+                    op["fmt"] = rng.choice(["speed/", "id,speed/", "speed/raw,speed/"]) + rng.choice(UNIT_MODIFIERS[:2])
+                    op["canon"] = True
             elif which == "limits":
                 op["fmt"] = f";{rng.randint(0, 4)}:{rng.randint(0, 4)}"
                 if rng.random() < 0.4:
@@ -392,6 +402,8 @@ def _struct_records(spec, recs):
 
 def _types_and_titles(w, spec):
     ft = {}
+    if "speed" in spec["fields"]:
+        ft["speed"] = w.wtypes.setdefault("speed", rw.ro.UnitFieldType(UNIT_MODIFIERS))
     if spec.get("types"):
         ft.update({n: w.enums[i] for n, i in spec["types"].items()})
     for n, args in (spec.get("wtypes") or {}).items():
@@ -438,8 +450,10 @@ def build_table(w, fmt=None, fmt_obj=None, with_limits=True, ctx=None, initial=F
         elif not spec.get("nt"):
             kw["fields"] = rw.ro.fields_arg(spec)
         if struct is None:
+            if "speed" in spec["fields"]:
+                kw.setdefault("fields_types", {})["speed"] = w.wtypes.setdefault("speed", rw.ro.UnitFieldType(UNIT_MODIFIERS))
             if spec.get("types"):
-                kw["fields_types"] = {n: w.enums[i] for n, i in spec["types"].items()}
+                kw.setdefault("fields_types", {}).update({n: w.enums[i] for n, i in spec["types"].items()})
             if spec.get("wtypes"):
                 ft = kw.setdefault("fields_types", {})
                 for n, args in spec["wtypes"].items():
@@ -704,7 +718,10 @@ def execute(trace, rng):
                     else:
                         try:
                             t.set_fmt(op["fmt"])
-                        except ValueError:
+                        except ValueError as e:
+                            if op.get("canon") and all(n in w.spec["fields"] for n in columns_of(op["fmt"])):
+                                raise Violation("roundtrip", "plain-valid-format-rejected",
+                                                f"table.fmt = {op['fmt']!r}: {e!r}")
                             # generated formats are valid; still: rejecting one is an input matter
                             w.stats["agreed_errors"] += 1
                             continue
